@@ -12,7 +12,7 @@ FLOAT_SCALARS = ["area_um", "deform", "area_cvx", "area_msd", "pos_x", "pos_y", 
                  "size_y", "bright_avg", "bright_sd", "aspect", "tilt", "temp", "time",
                  "fl1_width", "fl1_area", "fl2_area", "fl1_pos", "pressure", "g_force",
                  "inert_ratio_cvx", "inert_ratio_raw", "circ", "area_ratio", "temp_amb",
-                 "index_online", "userdef1", "userdef2", "ml_score_abc", "bg_med"]
+                 "index_online", "userdef1", "userdef2", "ml_score_abc", "bg_med", "volume"]
 UINT32_SCALARS = ["fl1_max", "fl2_max", "fl3_max", "fl1_npeaks", "fl2_npeaks", "nevents"]
 UINT64_SCALARS = ["frame"]
 TRACES = ["fl1_median", "fl1_raw", "fl2_median", "fl2_raw", "fl3_median", "fl3_raw"]
@@ -168,6 +168,13 @@ def complete_meta(rng, feats, n, shape=None, traces=None):
                                       "0.49% MC-PBS"])),
         },
     }
+    if rng.random() < 0.35:
+        # the version chain of the source measurement (recording software, earlier dclab
+        # versions that processed the data); the writer appends the current version
+        meta["setup"]["software version"] = str(rng.choice([
+            "ShapeIn 2.0.1 | dclab 0.35.0", "dclab 0.30.1", "ShapeIn 2.2.2.4",
+            "ShapeIn 2.2.2.4 | dclab 0.46.0 | dclab 0.47.2", "ChipStream 0.5.1",
+            "ShapeIn 2.0.5 | dclab 0.36.1 | dclab 0.48.1"]))
     if rng.random() < 0.6:
         meta["experiment"]["run identifier"] = "mid-" + "".join(
             rng.choice(list("0123456789abcdef"), 8))
